@@ -40,9 +40,47 @@ Definition pack_ok (c : case) (p : epack) : bool :=
   && match closing p with Some t => String.eqb (e_poschan t) (ep_chan p) | None => false end
   && String.eqb (ep_poschan p) (ep_chan p).
 
+(* "the downstream partition id of the same-named partition" is about now, not about any time: once a stream has emitted the
+   drop message of a partition (re-addressed to downstream id t under name n), a later insert or delete of that stream under
+   the name n carries t only if the downstream has reported t for n again since (a scripted answer of a Feed label between the
+   two): the dropped partition's id is not what the name stands for any more.  The labels of the packs come from c_out_at
+   (without it - the closed examples of Props.v - the rule says nothing). *)
+Definition reported_between (ls : list label) (cid : Z) (i j : nat) (name : string) (tid : Z) : bool :=
+  existsb (fun kl => Nat.leb i (fst kl) && Nat.leb (fst kl) j &&
+                     match snd kl with
+                     | Feed c _ _ _ ans =>
+                         Z.eqb c cid && existsb (fun a => match a with
+                                                          | Some m => match alookup m name with Some x => Z.eqb x tid | None => false end
+                                                          | None => false end) ans
+                     | _ => false end)
+          (combine (seq 0 (List.length ls)) ls).
+
+Definition stale_msg (ls : list label) (p : epack) (j : nat) (acc : bool * list (Z * string * string * Z * nat)) (e : emsg)
+  : bool * list (Z * string * string * Z * nat) :=
+  match e_kind e with
+  | KDropPart => (fst acc, (ep_coll p, ep_spch p, e_pname e, e_part e, j) :: snd acc)
+  | KInsert | KDelete =>
+      if String.eqb (e_pname e) "" then acc
+      else (fst acc && forallb (fun d => match d with
+                                         | (c0, sp, n, t, i) =>
+                                             negb (Z.eqb c0 (ep_coll p) && String.eqb sp (ep_spch p) && String.eqb n (e_pname e) && Z.eqb t (e_part e))
+                                             || reported_between ls (ep_coll p) i j n t
+                                         end) (snd acc), snd acc)
+  | _ => acc
+  end.
+
+Fixpoint stale_scan (ls : list label) (seen : list (Z * string * string * Z * nat)) (ps : list (epack * nat)) : bool :=
+  match ps with
+  | [] => true
+  | (p, j) :: r =>
+      let res := fold_left (stale_msg ls p j) (ep_msgs p) (true, seen) in
+      fst res && stale_scan ls (snd res) r
+  end.
+
 (* a message keeps its source message id in its position: the harness sets e_id from the message's own id field and
    compares the position's message id with it (a difference is reported as e_id 0) *)
-Definition check_C02 (c : case) : bool := forallb (pack_ok c) (c_out c).
+Definition check_C02 (c : case) : bool :=
+  forallb (pack_ok c) (c_out c) && stale_scan (c_labels c) [] (combine (c_out c) (c_out_at c)).
 
 Definition mismatches (l : list (N * case)) : list N := failing_ids agrees l.
 Definition checkfails (l : list (N * case)) : list N := failing_ids check_C02 l.
